@@ -70,21 +70,22 @@ var stateNames = [...]string{"runnable", "blocked", "sleeping", "quiesce", "done
 
 // Actor is one controlled goroutine.
 type Actor struct {
-	ID      int
-	Site    string
-	Lib     bool // spawned by instrumented library code
-	Parent  int
-	wake    chan struct{}
-	flag    int32  // race mode: plain word the parked actor spins on (no happens-before edge)
-	rel     uint32 // race mode: released (atomically) whenever the actor parks or ends; acquired by the driver only
-	st      state
-	keys    []uintptr
-	kind    Kind
-	die     bool
-	prio    float64
-	BornAt  int
-	Steps   int
-	started bool
+	ID         int
+	Site       string
+	Lib        bool // spawned by instrumented library code
+	Parent     int
+	wake       chan struct{}
+	flag       int32   // race mode: plain word the parked actor spins on (no happens-before edge)
+	lastAtomic uintptr // address of the last atomic operation (what a following spin-wait is spinning on)
+	rel        uint32  // race mode: released (atomically) whenever the actor parks or ends; acquired by the driver only
+	st         state
+	keys       []uintptr
+	kind       Kind
+	die        bool
+	prio       float64
+	BornAt     int
+	Steps      int
+	started    bool
 }
 
 //go:norace
@@ -537,11 +538,29 @@ func (k *Kernel) Gosched() {
 	me := k.cur
 	me.kind = KGosched
 	me.st = stBlocked
+	if me.lastAtomic != 0 {
+		// a spin-wait on an atomic word (ro's spinlock): event driven like a mutex waiter, re-enabled
+		// when somebody modifies that word
+		me.keys = append(me.keys[:0], me.lastAtomic)
+		k.Stats.Goscheds++
+		k.logStep(me, KGosched, me.lastAtomic)
+		k.resched()
+		return
+	}
 	me.keys = append(me.keys[:0], keySpin)
 	k.spin++
 	k.Stats.Goscheds++
 	k.logStep(me, KGosched, 0)
 	k.resched()
+}
+
+// NoteAtomic records the address of the atomic operation the current actor is about to perform.
+//
+//go:norace
+func (k *Kernel) NoteAtomic(addr uintptr) {
+	if k.cur != nil {
+		k.cur.lastAtomic = addr
+	}
 }
 
 // Notify re-enables the actors blocked on key.
